@@ -235,8 +235,8 @@ def describe(line):
     if p[0] == "R":
         d.update({"layer": "register", "entry": "blocking" if p[1] == "s" else "*_async", "size_bits": int(p[2]),
                   "address": int(p[3]), "reset_value_hex": p[4],
-                  "operations": [{"op": {"w": "write", "z": "write_with_zero", "r": "read", "m": "modify"}[o.split(".")[0]],
-                                  "closure": ("xor " if o.split(".")[1] == "x" else "overwrite with ") + o.split(".")[2]}
+                  "operations": [dict({"op": {"w": "write", "z": "write_with_zero", "r": "read", "m": "modify"}[o.split(".")[0]]},
+                                      **({} if o[0] == "r" else {"closure": ("xor " if o.split(".")[1] == "x" else "overwrite with ") + o.split(".")[2]}))
                                  for o in p[5].split(",")]})
     elif p[0] == "C":
         d.update({"layer": "command", "entry": "dispatch" if p[1] == "s" else "dispatch_async",
@@ -329,7 +329,8 @@ def report(ctx, info, stats, diffs, err, prop, theorems, rule, what, extra_assum
     real = [d for d in diffs if not d[3]]
     polls_only = [d for d in diffs if d[3]]
     if real:
-        l, a, b, _ = sorted(real, key=lambda d: cost(d[0]))[0]
+        # prefer a failing input inside the interface contract (the model does not answer PANIC:slice)
+        l, a, b, _ = sorted(real, key=lambda d: ("PANIC:slice" in d[2],) + cost(d[0]))[0]
         vlib.violation(ctx, {"what": what, "failing_input": describe(l), "implementation": a, "model_and_spec": b,
                              "reading": "events before '=>' are the interface calls in order (rw/rr = write/read_register(addr,size_bits,bytes), "
                                         "cd = dispatch_command(addr,size_in,input,size_out,output), bw/bf/br = buffer write/flush/read), after it the "
